@@ -106,6 +106,20 @@ Proof.
     eapply lsc_expr; eauto.
   - apply lsc_fresh; auto. intros x Hx. apply Hfr. exact Hx.
 Qed.
+Lemma PLw_SStruct x tn es : PLw (SStruct x tn es).
+Proof.
+  intros vc bc S0 T o vc' bc' H Hsc HL (Hnd & Hfr). cbn [lvn_stmt] in H. injection H as <- <- <-. cbn in Hsc.
+  destruct (Hfr x (or_introl eq_refl)) as [Hx HxS].
+  cbn [olist scoped_l scoped defs_l defs binders_l binders app].
+  split; [|split; [|split; [auto|split; [auto|repeat constructor; intros []]]]].
+  - rewrite andb_true_r. rewrite forallb_forall in *. intros e He. apply in_map_iff in He. destruct He as [e0 [<- He0]].
+    eapply lsc_expr; eauto.
+  - apply (lsc_fresh vc bc S0 T [x] HL). intros y [<-|[]]. exact Hx.
+Qed.
+Lemma PLw_SLateDecl x : PLw (SLateDecl x).
+Proof. intros vc bc S0 T o vc' bc' _ Hsc. discriminate Hsc. Qed.
+Lemma PLw_SLateAssign x e : PLw (SLateAssign x e).
+Proof. intros vc bc S0 T o vc' bc' _ Hsc. discriminate Hsc. Qed.
 Lemma PLw_SBreak e : PLw (SBreak e).
 Proof.
   intros vc bc S0 T o vc' bc' H Hsc HL (Hnd & Hfr). cbn [lvn_stmt] in H. injection H as <- <- <-. cbn in Hsc.
@@ -222,6 +236,9 @@ Proof.
   - exact PLw_SSIf.
   - exact PLw_SBreak.
   - exact PLw_SWhile.
+  - exact PLw_SStruct.
+  - exact PLw_SLateDecl.
+  - exact PLw_SLateAssign.
   - exact QLw_nil.
   - exact QLw_cons.
 Qed.
@@ -273,6 +290,9 @@ Proof.
     rewrite andb_true_r. exact H.
   - discriminate.
   - intros lvs ss bcol _ vc bc _. rewrite lvn_SWhile. destruct (lvn_stmts ss vc bc) as [[ss' vc1] bc1]. reflexivity.
+  - reflexivity.
+  - reflexivity.
+  - reflexivity.
   - reflexivity.
   - intros st r Hs Hr vc bc Hn. cbn in Hn. apply andb_prop in Hn. destruct Hn as [N1 N2]. cbn [lvn_stmts].
     specialize (Hs vc bc N1). destruct (lvn_stmt st vc bc) as [[o vc1] bc1]. specialize (Hr vc1 bc1 N2).
